@@ -14,12 +14,20 @@ ARG_TY = {"none": None, "i64": "i64", "cstruct": "Pt", "ref": "&u64", "mutref": 
           "optmut": "Option<&mut u64>", "slice64": "&[u64]", "mutslice64": "&mut [u64]", "slicezst": "&[()]", "optstruct": "Option<Pt>", "rawptr": "*const u8",
           "result": "Result<u64, u64>", "into": "impl Into<u64>", "callback": "OpaqueCallback<u64>", "iter": "CIterator<u64>",
           "aval": "Self::Item", "aref": "&Self::Item", "aslice": "&[Self::Item]", "aopt": "Option<Self::Item>", "ares": "Result<Self::Item, u64>"}
+# Option / Result written as paths (the generator recognises the type by its last segment)
+SPELLED_ARG = {"optabs": ("opt", "::core::option::Option<u64>"), "optstd": ("opt", "std::option::Option<u64>"), "resabs": ("result", "::core::result::Result<u64, u64>")}
+SPELLED_RET = {"optabs": ("opt", "::core::option::Option<u64>"), "resabs": ("result", "::std::result::Result<u64, ()>")}
+for _k, (_b, _t) in SPELLED_ARG.items():
+    ARG_TY[_k] = _t
 # shapes over an unwrapped associated type (`type Item;`, implemented as u64)
 ASSOC = ("aval", "aref", "aslice", "aopt", "ares")
 RET_TY = {"unit": None, "i64": "i64", "cstruct": "Pt", "slice": "&[u8]", "mutslice": "&mut [u8]", "str": "&str",
           "opt": "Option<u64>", "optnpo": "Option<&u64>", "optptr": "Option<*const u8>", "result": "Result<u64, ()>", "resunit": "Result<(), ()>",
           "refret": "&u64", "mutrefret": "&mut u64", "optstruct": "Option<Pt>", "resio": "Result<u64, std::io::Error>",
           "resneg": "Result<u64, NegErr>"}
+
+for _k, (_b, _t) in SPELLED_RET.items():
+    RET_TY[_k] = _t
 
 # callee: compute digest `d` of the received argument, log it (and its address), write through &mut shapes
 ARG_BODY = {
@@ -47,11 +55,15 @@ ARG_BODY = {
 }
 ARG_BODY.update({"aval": "let d = (a % 100000) as i64; log(d);", "aref": ARG_BODY["ref"], "aslice": ARG_BODY["slice64"],
                  "aopt": ARG_BODY["opt"], "ares": ARG_BODY["result"]})
+for _k, (_b, _t) in SPELLED_ARG.items():
+    ARG_BODY[_k] = ARG_BODY[_b]
 THIS_REF = {"ref": "self", "mut": "&*self", "pinref": "self.get_ref()", "pinmut": "self.into_ref().get_ref()"}
 THIS_MUT = {"mut": "self", "pinmut": "self.get_mut()"}
 
 
 def ret_expr(ret, recv):
+    if ret in SPELLED_RET:
+        return ret_expr(SPELLED_RET[ret][0], recv)
     tr = THIS_REF.get(recv, "self")
     tm = THIS_MUT.get(recv, "self")
     return {
@@ -95,11 +107,16 @@ RET_DIGEST = {
     "resio": "let rd: Vec<i64> = match r { Ok(v) => vec![0, v as i64], Err(e) => vec![1, e.raw_os_error().map(|c| c as i64).unwrap_or(i64::MIN)] };",
 }
 
+for _k, (_b, _t) in SPELLED_RET.items():
+    RET_DIGEST[_k] = RET_DIGEST[_b]
+
 # caller: argument set-up for variant v (0/1): declares locals, `sent_d` (digest), `sent_addr` (0 if n/a), the
 # expression to pass, and a post-check expression producing Vec<i64> `post` (state of what the callee may write)
 def arg_setup(arg, v):
     if arg == "none":
         return "let sent_d = 0i64; let sent_addr = 0i64;", "", "let post: Vec<i64> = vec![];"
+    if arg in SPELLED_ARG:
+        return arg_setup(SPELLED_ARG[arg][0], v)
     if arg == "aval":
         val = ["u64::MAX", "41"][v]
         return "let av: u64 = %s; let sent_d = (av %% 100000) as i64; let sent_addr = 0i64;" % val, "av", "let post: Vec<i64> = vec![];"
